@@ -3,7 +3,9 @@
 //! Universe: the deviation-bounded neighbourhood of a corpus of real programs (see `text_util`):
 //! deviation 0 = the file; deviation 1 = every prefix, every single-token deletion, every single-token
 //! replacement by each member of a token alphabet, every single-char insertion of 9 hostile chars at every
-//! char boundary, every adjacent-token swap; deviation 2 (thorough, the shortest files) = ordered pairs of
+//! char boundary, every adjacent-token swap, every replacement of an identifier token by every OTHER identifier
+//! of the same file (semantic-level neighbours: duplicate parameter / field / binding names, wrong variable,
+//! function, type or field in a position); deviation 2 (thorough, the shortest files) = ordered pairs of
 //! such edits where the second edit is located at or after the first; plus "grammar garbage": every token
 //! string of length ≤ 2 (quick) / ≤ 3 (thorough) over the alphabet; plus every single *error mutation* (semantic
 //! level: undefined names, assignments to every binding, postfix operators, jump statements, …) of the same files.
@@ -22,11 +24,13 @@ pub struct C04;
 
 /// cost of one case (check, + compile when accepted) in µs assumed when sizing the tiers (measured on an idle 16-core box: ≈ 7.4 ms CPU)
 const CASE_US: f64 = 8000.0;
-const QUICK_BUDGET_CORE_S: f64 = 240.0;
+const QUICK_BUDGET_CORE_S: f64 = 280.0;
 const THOROUGH_BUDGET_CORE_S: f64 = 4300.0;
 const CHUNK: usize = 300;
-/// hand-written non-ASCII programs that are in the universe of both tiers whatever their length (thorough reaches all five by length)
-const ALWAYS: [&str; 2] = ["hand/accents", "hand/japanese"];
+/// hand-written programs that are in the universe of both tiers whatever their length: two of the non-ASCII programs (thorough
+/// reaches all five by length) and the five tiny programs with default / named arguments, constructors with defaults, a member function
+const ALWAYS: [&str; 7] =
+    ["hand/accents", "hand/japanese", "tiny/default-args", "tiny/named-args", "tiny/struct-defaults", "tiny/enum-defaults", "tiny/member-fn"];
 /// thorough: the files whose replacement alphabet is the full 79-token one, and the files with deviation 2
 const FULL_ALPHA_FILES: usize = 12;
 const DEV2_FILES: usize = 3;
@@ -164,7 +168,9 @@ fn judge(out: &mut UnitOut, origin: &str, desc: &str, text: &str, also_compile: 
                 sites.push(sk.clone());
                 out.count(&format!("panic {sk}"), 1);
                 let what = format!("{stage} panicked in {wher} at {}: {} | input {} ({origin}: {desc})", p.site, tu::shorten(&p.msg, 100), tu::shorten(text, 80));
-                out.violation(vec![input_key.clone(), sk], what.clone(), detail(&what));
+                let mut keys = vec![input_key.clone(), sk];
+                keys.extend(tu::root_key(p));
+                out.violation(keys, what.clone(), detail(&what));
             }
             bad = true;
         }
@@ -337,9 +343,10 @@ impl Prop for C04 {
         let raw: usize = plan(tier).iter().map(|u| if let U::Dev1(d, _) = u { d.hi - d.lo } else { 0 }).sum();
         format!(
             "corpus = {} programs loaded from the working tree (every r#\"…\"# literal of abra_core/tests/integration/*.rs that imports nothing but pure core modules, \
-             the pure core modules {:?} as main files, the stand-alone examples/*.abra, 5 hand-written non-ASCII programs), sorted by (length, text). \
-             This tier: {} files = hand/accents, hand/japanese and the shortest files within a cost budget (the longest has {} bytes), each with its complete deviation ≤ 1 neighbourhood = identity + every prefix + every single-token deletion + \
+             the pure core modules {:?} as main files, the stand-alone examples/*.abra, 5 hand-written non-ASCII programs, 5 tiny hand-written programs with default and named arguments, struct and enum constructors with defaults, a member function), sorted by (length, text). \
+             This tier: {} files = hand/accents, hand/japanese, the five tiny/* programs and the shortest files within a cost budget (the longest has {} bytes; {:?}), each with its complete deviation ≤ 1 neighbourhood = identity + every prefix + every single-token deletion + \
              every replacement of a non-blank token by each of the {}-token alphabet{} + every insertion of one of {:?} at every char boundary + every adjacent-token swap \
+             + every replacement of an identifier token by every other identifier that occurs in the same file (Σ over files of identifier tokens × (distinct identifiers − 1)) \
              ({} raw mutants in closed form; texts that repeat an earlier mutant of the same file are skipped and counted){}; \
              plus, for the same files, every single ERROR mutation at every site (C33's kinds: undefined name, unknown field, literal of another type, deleted arm, assignment to a let, dropped / added / unknown named call argument, bad escape; \
              and the semantic kinds: `x = x` after the line and inside the next block of every name, `x[0] += 1`, postfix `? ! .zz [0] () (zz = 0) = 0` on every identifier, break / continue / return after every line); \
@@ -350,6 +357,7 @@ impl Prop for C04 {
             tu::pure_core_modules().iter().map(|x| x.0.as_str()).collect::<Vec<_>>(),
             fs.len(),
             fs.last().map(|i| c[*i].text.len()).unwrap_or(0),
+            fs.iter().map(|i| c[*i].name.as_str()).collect::<Vec<_>>(),
             ALPHA_CORE.len(),
             if tier == Tier::Thorough { format!(" (the {}-token full alphabet on the {FULL_ALPHA_FILES} shortest)", ALPHA_FULL.len()) } else { String::new() },
             tu::INSERT_CHARS,
